@@ -26,6 +26,9 @@ type stmt struct {
 	// NullCmpCols: result columns that are operands of a >= / <= comparison in the WHERE
 	// clause of a value-row scan (region of finding C35-valuerow-null-cmp).
 	NullCmpCols []int
+	// AfterFailed: the previous statement on this connection failed (region of finding
+	// C35-found-rows-after-failed-select for the per-session counters).
+	AfterFailed bool
 	// Multi: the statements sent together in one COM_QUERY (multi-statement mode); SQL is
 	// their concatenation.
 	Multi []*stmt
